@@ -44,6 +44,16 @@ add("C17", "exploration",
     "Trusted: internal/ref/c17_analytic.go; open readings accepted either way (PERCENT_RANK of a one-row partition, FIRST/LAST/NTH_VALUE with ORDER BY but no frame, LAG/LEAD IGNORE NULLS, rank family without ORDER BY). LISTAGG/JSON_AGG DISTINCT not generated.",
     "property-based testing (rapid) against a reference evaluator", "DESIGN.md §3 C17")
 
+add("C09", "exploration",
+    "The real lock/handler/commit code of 2-4 csvq 'virtual processes' (own Session/Transaction/Processor each) is run under a baton scheduler that owns every file-system step of lib/file and Transaction.Commit through the verif yield points: generated schedules (bursts + round-robin) and wait-timeout events; history invariants are checked on the observed points (no writer admitted while a writer or reader holds the table, no reader while a writer holds it), final counter = successful commits, each read lies in its committed window, only timed-out processes fail and only with the timeout error, no control files remain, at most one concurrent creator wins and keeps its file. A second sub-check runs 4-32 real processes against one counter.",
+    "Trusted: hook placement; steps between two points are atomic; go-file's flock retry loop is un-hooked (3 s watchdog, stalls counted); the timeout event models --wait-timeout expiring while the process is acquiring access. Search over schedules, not exhaustive.",
+    "schedule exploration (rapid-generated interleavings of the real code under a controlled scheduler) with history invariants + multi-process stress", "DESIGN.md §3 C09")
+
+add("C15", "exploration",
+    "Generated procedures (IF/ELSEIF/ELSE, CASE, WHILE, WHILE IN cursor loops, BREAK/CONTINUE/EXIT, nested/recursive function declarations and calls with RETURN, variables/cursors/temporary tables/functions re-declared under 3-name pools at every depth) are executed and compared with a reference interpreter (environment stack, textbook scoping): PRINT sequence, error class (undeclared/redeclared/none) and exit flow; a second sub-check calls user functions from a SELECT over 160-320 rows at cpu 4 and compares every row with the reference.",
+    "Trusted: internal/ref/c15_proc.go written from the manual; outcomes the manual leaves open (dynamic vs lexical resolution of free names in function bodies, evaluation-order effects, CLOSE of a closed cursor) are discarded and counted.",
+    "property-based testing (rapid) against a reference interpreter of the procedural language", "DESIGN.md §3 C15")
+
 NOT_YET = {}
 
 def main():
